@@ -8,9 +8,9 @@
    the seven specification bits of Model/CfgMerge.v for "E before, R after, R2 after running it again".
    `presets`, `linter_sections`, the template, markers, separators, defaults and validators are regenerated
    from /repo on every run (Gen/CfgToolGen.v). *)
-From TL Require Import Lib.Base Lib.GenTypes Model.CfgTypes Gen.CfgToolGen Model.CfgMerge Model.CfgCli Model.CfgLoc Model.CfgPath
+From TL Require Import Lib.Base Lib.GenTypes Model.CfgTypes Gen.CfgToolGen Model.CfgMerge Model.CfgCli Model.CfgLoc Model.CfgPath Model.CfgEntry
      Proofs.CfgLines Proofs.CfgMergeMain Proofs.CfgMergeText Proofs.CfgMergeSpec Proofs.CfgInitMain Proofs.CfgCliProofs Proofs.CfgConvert
-     Proofs.CfgLocProofs Proofs.CfgPathProofs Proofs.CfgTail.
+     Proofs.CfgLocProofs Proofs.CfgPathProofs Proofs.CfgTail Proofs.CfgEntryProofs.
 From Coq Require Import ZArith.
 
 (* 1. init-config without --force, every preset, every existing file of the subset, every quirk vector with the two
@@ -35,6 +35,42 @@ Theorem C20_init_config_partial : forall q preset reps E,
   spec_ok reps E R (result_file R (init_config q preset R)) = true.
 Proof. intros q preset reps E H2 H3 Hl Hs. exact (init_config_spec q preset reps E Hl Hs (or_intror H2) (or_intror H3)). Qed.
 Print Assumptions C20_init_config_partial.
+
+(* 1''. the ENTRY POINT (Model/CfgEntry.v; control shape of init_config pinned by Gen.init_entry_shape_ok): the preset comes from
+      --preset (--non-interactive) or from the prompt (empty answer = default, no-preset answers are asked again); whether the file
+      is merged depends on `exists and not force` alone.  So on an existing file without --force EVERY entry point is init_config
+      for the chosen preset - the merge specification does not depend on how the preset was chosen - and with --force / without a
+      file the text written is the generated file of the chosen preset (the text of C20_fresh_files); the prompt yields the default
+      or one of the presets. *)
+Theorem C20_merge_independent_of_entry_point : forall q ni d ans E p,
+  entry_preset ni d ans = Some p -> init_entry q ni d ans false (Some E) = EMerge (init_config q p E).
+Proof. exact entry_merge_is_init_config. Qed.
+Print Assumptions C20_merge_independent_of_entry_point.
+
+Theorem C20_init_entry_spec : forall q ni d ans p reps E,
+  q_append_to_flow_root q = false \/ is_block E = true -> q_insert_mid_entry q = false \/ marker_ok E = true ->
+  entry_preset ni d ans = Some p -> lookup p presets = Some reps -> struct_r (analyse E) = true ->
+  exists r, init_entry q ni d ans false (Some E) = EMerge r /\
+            let R := result_file E r in
+            forall r2, init_entry q ni d ans false (Some R) = EMerge r2 -> spec_ok reps E R (result_file R r2) = true.
+Proof. exact init_entry_spec. Qed.
+Print Assumptions C20_init_entry_spec.
+
+Theorem C20_entry_fresh_file : forall q ni d ans force existing p reps,
+  entry_preset ni d ans = Some p -> lookup p presets = Some reps -> (force = true \/ existing = None) ->
+  init_entry q ni d ans force existing = EFresh (gen_content reps).
+Proof. exact entry_fresh_is_template. Qed.
+Print Assumptions C20_entry_fresh_file.
+
+Theorem C20_prompt_yields_a_preset : forall d ans p,
+  prompt_choice d ans = Some p -> p = d \/ In p (map fst presets).
+Proof. exact prompt_choice_sound. Qed.
+Print Assumptions C20_prompt_yields_a_preset.
+
+Example C20_entry_nonvacuous :
+  entry_preset false "standard" [""] = Some "standard" /\ entry_preset false "standard" ["bogus"; "STRICT"; "lenient"] = Some "lenient" /\
+  entry_preset false "standard" ["bogus"] = None /\ entry_preset true "strict" [] = Some "strict".
+Proof. vm_compute. repeat split; reflexivity. Qed.
 
 (* 2. what the specification says, bit by bit: valid YAML whose entries are literally old or template entries;
       old non-blank lines preserved in order; settings in effect; only missing sections added; all of them added
